@@ -161,7 +161,8 @@ where
                             } else {
                                 let mut current_param = match current.parse::<u64>() {
                                     Ok(val) => val,
-                                    _ => 0,
+                                    Err(_) if current.is_empty() => 0,
+                                    Err(_) => 9999,
                                 };
                                 current_param = u64::min(current_param, 9999);
                                 params.push(current_param as u32);
@@ -284,7 +285,8 @@ where
                             } else {
                                 let mut current_param = match current.parse::<u64>() {
                                     Ok(val) => val,
-                                    _ => 0,
+                                    Err(_) if current.is_empty() => 0,
+                                    Err(_) => 9999,
                                 };
                                 current_param = u64::min(current_param, 9999);
                                 params.push(current_param as u32);
